@@ -1,6 +1,6 @@
 (* Spec/Pure.v -- vocabulary of the properties C09 (reads are pure), C17 (print) and
    C04 (json of a heap value).  DEFINITIONS ONLY. *)
-From Coq Require Import List Bool PArith.
+From Coq Require Import List Bool PArith Sorted.
 From JQ Require Import Base.Bytes Num.F64 Syntax.Token Syntax.Ast Json.JValue Sem.Value.
 Import ListNotations.
 
@@ -99,9 +99,29 @@ Fixpoint print_events (ps : list bytes) (first : bool) : list io_event :=
   | p :: r => (if first then [] else [IoWrite [32%N]]) ++ IoWrite p :: print_events r false
   end.
 
-(* JSON text whose strings need no escaping: no quote, no backslash, no control byte *)
+(* a byte that needs no escaping inside a JSON string: printable ASCII but quote, backslash *)
 Definition plain_byte (c : byte) : bool :=
-  (N.leb 32 c && negb (N.eqb c 34) && negb (N.eqb c 92))%bool.
+  (N.leb 32 c && N.ltb c 128 && negb (N.eqb c 34) && negb (N.eqb c 92))%bool.
+
+(* a JSON value whose strings (keys included) need no escaping and whose numbers are finite *)
+Inductive json_plain : jvalue -> Prop :=
+| jp_null : json_plain JNull
+| jp_bool : forall b, json_plain (JBool b)
+| jp_num : forall f, f_is_finite f = true -> valid_binary 53 1024 f = true -> json_plain (JNum f)
+| jp_str : forall s, forallb plain_byte s = true -> json_plain (JStr s)
+| jp_arr : forall l, Forall json_plain l -> json_plain (JArr l)
+| jp_obj : forall l,
+    Forall (fun kv => forallb plain_byte (fst kv) = true /\ json_plain (snd kv)) l ->
+    json_plain (JObj l).
+
+(* a Go map built by inserting the members in order (last duplicate wins, keys sorted):
+   the identity on the values the decoder produces *)
+Fixpoint jsort (j : jvalue) : jvalue :=
+  match j with
+  | JArr l => JArr (map jsort l)
+  | JObj l => JObj (fold_left (fun f kv => assoc_set (fst kv) (jsort (snd kv)) f) l [])
+  | _ => j
+  end.
 
 (* the cells a container points to; [w] is a child of [v]; [v] (transitively) contains itself *)
 Definition children (h : heap) (v : value) : list addr :=
@@ -141,3 +161,14 @@ Fixpoint jrender (quote : bool) (j : jvalue) : bytes :=
                   jrender true x ++ fields r false
                 end) l true ++ [125%N]
   end.
+
+(* object keys strictly ascending at every level: what the decoder produces (JValue.v) *)
+Inductive keys_sorted : jvalue -> Prop :=
+| ks_null : keys_sorted JNull
+| ks_bool : forall b, keys_sorted (JBool b)
+| ks_num : forall f, keys_sorted (JNum f)
+| ks_str : forall s, keys_sorted (JStr s)
+| ks_arr : forall l, Forall keys_sorted l -> keys_sorted (JArr l)
+| ks_obj : forall l,
+    Sorted.StronglySorted (fun a b : bytes * jvalue => bytes_cmp (fst a) (fst b) = Lt) l ->
+    Forall (fun kv => keys_sorted (snd kv)) l -> keys_sorted (JObj l).
